@@ -113,6 +113,7 @@ class RegExp:
         self._poll_callback = poll_callback
         self._stack_limit = stack_limit
         self._poll_interval = poll_interval
+        self._poll_state = [0]  # steps since the last deadline poll, over all matchers
 
         # Parse and compile
         try:
@@ -160,6 +161,7 @@ class RegExp:
             self._poll_callback,
             self._stack_limit,
             self._poll_interval,
+            poll_state=self._poll_state,
         )
 
     def test(self, string: str) -> bool:
